@@ -129,6 +129,16 @@ CLAIMS["C05"] = ("other", "ESP path-sensitive typestate over MIR + provenance (p
     "Not decided: iteration = lookup, entry placement (index i vs i+n), absence of duplicate keys, 'no forwarding marker left behind'.",
     "DESIGN.md §4 C05", TRUST + " ESP tracks the named bool/Option flag locals of each body; an untracked correlation would show up as a reported path.")
 
+CLAIMS["C04"] = ("other", "ownership typestate over MIR: must-consume rules + ESP path-sensitive typestate",
+    "Clauses: at every site where ownership of a heap object changes hands -- every swap result is retired/freed/returned/asserted null "
+    "on all paths, every boxed object has a consumer, the node of a failed empty-bin CAS is reclaimed; shared value pointers are never "
+    "retired with their old containers (tree bins via defer_drop_without_values, temporary nodes without values, drop constants); put's "
+    "value is published exactly once or handed back exactly once, consistent with the returned PutResult variant, and is still owned on "
+    "every retry; a removed/replaced value is retired exactly once (callee iff drop_value and no untreeify, else caller); teardown frees "
+    "nodes, values, tree bins, the table and the forwarding node. Not decided: drop counts over all concurrent histories, 'dropped after "
+    "the last guard' (that is seize's contract).",
+    "DESIGN.md §4 C04", TRUST)
+
 NOT_APPLICABLE = {
     "C02": "Quantifies over all operation sequences x hashers x capacities and asserts equality of run-time values (return values, "
            "contents) with a reference map; no path-, type- or call-graph-shaped clause carries it. Its only structural clause "
